@@ -70,7 +70,8 @@ def run(chk, tier, seed):
     chans = [spec("1"), spec("-2"), spec("+3"), spec("12"), spec("1", "2"), spec("3", "-4"), spec("1", "2", "3"),
              rng(["1"], ["3"]), rng(["1", "1"], ["2", "3"]), rng(["1", "2", "3"], ["4", "5", "6"]),
              path("'", "p"), path('"', "a,b"), path("'", "x:y!1"), path("'", "d\x7fA"), path('"', "\x01~ "),
-             spec("-9223372036854775808", "9223372036854775807"), rng(["-9223372036854775808"], ["-9223372036854775807"])]
+             spec("-9223372036854775808", "9223372036854775807"), rng(["-9223372036854775808"], ["-9223372036854775807"]),
+             spec("000000000000000000000012"), spec("4", "-00000000000000000005", "6"), rng(["1"], ["+3"]), rng(["-1", "2", "3"], ["+4", "5", "6"])]
     mixed = [rng(["1"], ["2", "3"]), rng(["1", "2"], ["3"]), rng(["1", "2", "3"], ["4", "5"])]
     run_one(chk, "numeric", False, nums, [], 5 if th else 3)
     run_one(chk, "channel", True, chans, mixed, 4 if th else 3)
